@@ -237,8 +237,29 @@ Section ImportProps.
   (* the loop of convertSpec loads every definition exactly once *)
   Theorem convert_spec doc : doc_ok doc -> convert doc = sort_by itype_name (map loaded doc).
   Proof.
-    intros [Hb [Hn Hfree]]. unfold ImportSpec.convert. rewrite (fold_spec doc [] Hb Hfree); [reflexivity|exact Hn].
+    intros [Hb [Hn Hfree]]. unfold ImportSpec.convert, ImportSpec.loaded_list, ImportSpec.visit_order.
+    set (vd := sort_by (fun d:odef => fst d) doc).
+    assert (Hp: Permutation vd doc) by apply sort_perm.
+    rewrite (fold_spec vd []).
+    - cbn [app]. apply sort_perm_unique; [apply Permutation_map, Hp|].
+      rewrite map_map. erewrite map_ext; [|intros d; apply load_name].
+      eapply Permutation_NoDup; [apply Permutation_map, Permutation_sym, Hp|exact Hn].
+    - intros d Hd. apply Hb. eapply Permutation_in; [exact Hp|exact Hd].
+    - intros types d Hd. apply Hfree. eapply Permutation_in; [exact Hp|exact Hd].
+    - cbn [map app]. eapply Permutation_NoDup; [apply Permutation_map, Permutation_sym, Hp|exact Hn].
   Qed.
+
+  (* since the definitions are visited in the order of their names, the order in which `doc` lists them is
+     irrelevant for EVERY document with distinct names - no doc_ok needed (before 3a34129: refuted) *)
+  Theorem convert_any_order doc doc' :
+    Permutation doc doc' -> NoDup (map (fun d:odef => fst d) doc) -> convert doc = convert doc'.
+  Proof.
+    intros Hp Hn. unfold ImportSpec.convert, ImportSpec.loaded_list, ImportSpec.visit_order.
+    rewrite (sort_perm_unique (fun d:odef => fst d) doc doc' Hp Hn). reflexivity.
+  Qed.
+  Theorem import_any_order doc doc' :
+    Permutation doc doc' -> NoDup (map (fun d:odef => fst d) doc) -> import doc = import doc'.
+  Proof. intros Hp Hn. unfold import_oas2. rewrite (convert_any_order doc doc' Hp Hn). reflexivity. Qed.
 
   Lemma In_write_order t l : In t (write_order l) <-> In t l.
   Proof.
@@ -343,7 +364,8 @@ Section ImportProps.
   Theorem import_skips_builtin_named n b :
     is_builtin (safe n) = true -> import [(n, b)] = [].
   Proof.
-    intros Hb. unfold import_oas2, ImportSpec.convert. cbn [fold_left]. unfold ImportSpec.convert_step. cbn [fst].
+    intros Hb. unfold import_oas2, ImportSpec.convert, ImportSpec.loaded_list, ImportSpec.visit_order.
+    cbn [sort_by insert fold_left]. unfold ImportSpec.convert_step. cbn [fst].
     unfold find. rewrite Hb. reflexivity.
   Qed.
 
